@@ -303,17 +303,58 @@ def add_offset_start_stream(env, res=None, directory: str = 'sy6', seconds: int 
     return spk
 
 
+def pad_mdat(buf: bytes, pad: int) -> bytes:
+    """every fragment's mdat grows by `pad` zero bytes, which are added to the size of its last sample
+    (the payload is opaque): segments larger than the windowed reader's whole cache (30 x 16 KiB)"""
+    root = ib.parse_file(buf)
+    out = bytearray()
+    pending_sidx = None
+    for c in root.children:
+        raw = bytearray(buf[c.start:c.end])
+        if c.type == b'sidx':
+            pending_sidx = (len(out), c)
+        elif c.type == b'moof':
+            local = ib.parse_file(bytes(raw)).children[0]
+            tr = local.find(b'traf', b'trun')
+            _, flags, p = ib.fullbox(raw, tr)
+            count = struct.unpack_from('>I', raw, p)[0]
+            assert flags & 0x200 and count
+            q = p + 4 + (4 if flags & 1 else 0) + (4 if flags & 4 else 0)
+            entry = 4 * bin(flags & 0xF00).count('1')
+            pos = q + (count - 1) * entry + (4 if flags & 0x100 else 0)
+            struct.pack_into('>I', raw, pos, struct.unpack_from('>I', raw, pos)[0] + pad)
+            if pending_sidx is not None:
+                off, sb = pending_sidx
+                sv, _, sp = ib.fullbox(buf, sb)
+                ref = off + (sp - sb.start) + (28 if sv else 20)
+                word = struct.unpack_from('>I', out, ref)[0]
+                struct.pack_into('>I', out, ref, (word & 0x80000000) | ((word & 0x7FFFFFFF) + pad))
+            pending_sidx = None
+        elif c.type == b'mdat':
+            struct.pack_into('>I', raw, 0, len(raw) + pad)
+            raw += b'\0' * pad
+        out += raw
+    return bytes(out)
+
+
 def add_layout_variants_stream(env, res=None, directory: str = 'sy7') -> int:
     """  sy7_a1_enc  encrypted, tfhd with an explicit (file-absolute) base_data_offset
          sy7_a2      a free box between every moof and its mdat"""
     from dlv.appenv import FIXTURES
     fx = FIXTURES / 'bbb'
-    files = {'sy7_v1': (fx / 'bbb_v7.mp4').read_bytes(),
+    a1 = restructure((fx / 'bbb_a1.mp4').read_bytes(), free_before_mdat=12)
+    # the last box of the file states size 0 ("to the end of the file"), as a recorder leaves it
+    a1 = bytearray(a1[:ib.index_file(a1).segments[-1].end])
+    last_mdat = [c for c in ib.parse_file(bytes(a1)).children if c.type == b'mdat'][-1]
+    assert last_mdat.end == len(a1)
+    struct.pack_into('>I', a1, last_mdat.start, 0)
+    files = {'sy7_v1': pad_mdat((fx / 'bbb_v7.mp4').read_bytes(), 492000),      # every segment > 480 KiB
              'sy7_v1_enc': (fx / 'bbb_v7_enc.mp4').read_bytes(),
              'sy7_a1_enc': restructure((fx / 'bbb_a1_enc.mp4').read_bytes(), explicit_base=True),
-             'sy7_a1': restructure((fx / 'bbb_a1.mp4').read_bytes(), free_before_mdat=12)}
+             'sy7_a1': bytes(a1)}
     for name, data in files.items():
         assert len(ib.index_file(data).segments) == 10, name
+    assert min(s_.mdat_payload[1] - s_.mdat_payload[0] for s_ in ib.index_file(files['sy7_v1']).segments) > 30 * 16384
     spk = env.add_stream(directory, title='Synthetic: explicit base (encrypted), free before mdat', files=files)
     if res is not None:
         res.count('synthetic.streams')
